@@ -82,6 +82,13 @@ PROPS["C19"]["parts"].append(H("TestC19Binary", "binary", 15, 200, qs=1, ts=4))
 PROPS["C19"]["assumptions"] += _BIN
 PROPS["C08"]["parts"].append(H("TestC08Binary", "binary", 40, 600, qs=1, ts=4))
 PROPS["C08"]["assumptions"] += _BIN
+PROPS["C08"]["parts"].append(H("TestC08BinaryIdle", "binidle", 3, 40, qs=1, ts=4))
+PROPS["C18"]["parts"].append(H("TestC18Binary", "binary", 4, 60, qs=1, ts=4))
+PROPS["C18"]["assumptions"] = PROPS["C18"]["assumptions"] + _BIN
+PROPS["C16"]["parts"].append(H("TestC16Binary", "binary", 20, 300, qs=1, ts=4))
+PROPS["C16"]["assumptions"] = PROPS["C16"]["assumptions"] + _BIN
+PROPS["C20"]["parts"].append(H("TestC20Binary", "binary", 15, 200, qs=1, ts=4))
+PROPS["C20"]["assumptions"] = PROPS["C20"]["assumptions"] + _BIN
 _FUZZ_RULE = "native Go fuzzing (coverage guided) of one message sent by a joined member that owns an entity, in a session with a witness, a subscribed component type and all modules, plus a bystander session; input = message type number and the raw bytes of all fields >= 3; state rebuilt every iteration; oracle: no panic, witness replica == server state, bystander session untouched, sender still a member or gone through the normal path, witness still served; quick tier replays the seed corpus (26 message types x 9 field blobs) and every saved crasher; non-trivial = inputs that reached new coverage (thorough) / replayed inputs (quick)"
 for _p in ("C08", "C04"):
     PROPS[_p]["parts"].append({"name": "fuzz", "gofuzz": "FuzzHandleMessage", "fuzztime": 240, "rule": _FUZZ_RULE, "test": "FuzzHandleMessage"})
